@@ -342,12 +342,22 @@ func main() {
 			r.Viol("ip4-header-verify", "IPv4 header written by "+which+" does not verify: "+lib.Hex(outp[:20]), "ip4store "+lib.Hex(pre))
 		}
 	}
-	// long inputs: the theorem's domain is every length up to 131074 bytes (sharp: refuted at 131076); the
-	// library never sends that much, but Checksum is exported. Lengths around every power-of-two / 0xffff
-	// boundary, odd and even, random and 0xff-heavy contents.
-	longs := []int{4095, 4096, 4097, 9000, 9001, 32767, 32768, 65534, 65535, 65536, 65537, 70000, 100001, 131073, 131074}
+	// long inputs: the library never sends that much, but Checksum is exported and the theorem covers every byte
+	// string a Go program can hold. Lengths around every power-of-two / 0xffff boundary, odd and even, random, 0xff-heavy
+	// and all-0xff contents; 131076 bytes of 0xff is where the former 32 bit accumulator wrapped (repaired, 82fb9fa).
+	longs := []int{4095, 4096, 4097, 9000, 9001, 32767, 32768, 65534, 65535, 65536, 65537, 70000, 100001, 131073, 131074,
+		131075, 131076, 131077, 200001, 262144, 262147, 524289, 1 << 20}
 	if r.Thorough() {
-		longs = append(longs, 65533, 65538, 65539, 98303, 98304, 98305, 131071, 131072)
+		longs = append(longs, 65533, 65538, 65539, 98303, 98304, 98305, 131071, 131072, 131078, 196608, 196611, 1<<20+1, 1<<21, 1<<21+3, 3<<20+1)
+	}
+	for _, n := range longs {
+		if n > 131074 {
+			b := make([]byte, n)
+			for j := range b {
+				b[j] = 0xff
+			}
+			cs(b, "long")
+		}
 	}
 	for _, n := range longs {
 		for k := 0; k < 2; k++ {
